@@ -154,6 +154,14 @@ def setup(ex, fi, con):
             continue
         if ty.kind == "ignored":
             continue
+        if ty.kind in ("elem", "ebounds"):
+            from . import elem as E
+            srt = E.sort(ex)
+            if ty.kind == "elem":
+                locals_[nm] = Val(ty, z3.Const(nm, srt))
+            else:
+                locals_[nm] = Val(ty, None, meta=dict(lower=z3.Const(nm + "_lower", srt), upper=z3.Const(nm + "_upper", srt)))
+            continue
         v = Val(ty, z3.Const(nm if nm != "_" else "underscore_", ty.sort()))
         ex.assume_type(v)
         if ty.kind == "dict":
@@ -183,6 +191,8 @@ def run_path(fi, con, prefix):
     dec = Decider(prefix)
     ex = Ex(dec, con.qual)
     ex.reveal = set(con.reveal)
+    if con.elem_tier:
+        ex.elem_tier = con.elem_tier
     ob_extra = []
     status = "ok"
     try:
@@ -450,6 +460,9 @@ def discharge(vcs, covers, tier="quick", procs=None):
             slots, rls = [], []
             for n_, i in enumerate(chunk):
                 b_, known_ = budget_for(vcs[i].name, tier)
+                con_ = spec.CONTRACTS.get(vcs[i].fnqual)
+                if con_ is not None and con_.budget_mult != 1 and not known_:
+                    b_ = min(b_ * con_.budget_mult, 2_000_000_000)
                 rls.append(b_)
                 vcs[i].in_baseline = known_
                 g = z3.Bool(f"__g{n_}")
